@@ -559,19 +559,19 @@ static void push_args2(Node *args, bool first_pass) {
   // Arguments are pushed last to first, so the padding that precedes
   // this argument in memory is pushed after it.
   if (args->stack_pad) {
-    println("  sub $8, %%rsp");
-    depth++;
+    println("  sub $%d, %%rsp", args->stack_pad * 8);
+    depth += args->stack_pad;
   }
 }
 
-// The psABI aligns an argument in memory to 16 bytes if its type
-// requires that (long double, aggregates with such a member).
+// An argument in memory is placed at an offset of the argument area
+// that is a multiple of its alignment: 16 for long double and
+// aggregates containing one, more for over-aligned aggregates (gcc and
+// clang do this although the area itself is only 16-byte aligned).
 static int stack_arg_slots(Node *arg, int stack) {
-  if (arg->ty->align >= 16 && stack % 2 == 1) {
-    arg->stack_pad = true;
-    stack++;
-  }
-  return stack + align_to(arg->ty->size, 8) / 8;
+  int unit = MAX(1, arg->ty->align / 8);
+  arg->stack_pad = (unit - stack % unit) % unit;
+  return stack + arg->stack_pad + align_to(arg->ty->size, 8) / 8;
 }
 
 // Load function call arguments. Arguments are already evaluated and
@@ -1533,9 +1533,9 @@ static void assign_lvar_offsets(Obj *prog) {
         }
       }
 
-      // Stack arguments are aligned to 8 or, if the type needs more, to
-      // 16 bytes; the stack itself is not aligned any better than that.
-      top = align_to(top, MIN(16, MAX(8, ty->align)));
+      // Stack arguments are aligned within the argument area, which
+      // starts at 16(%rbp), not to absolute addresses.
+      top = 16 + align_to(top - 16, MAX(8, ty->align));
       var->offset = top;
       top += var->ty->size;
     }
